@@ -54,7 +54,10 @@ def representatives(seed):
         dims = ["x", "y"][: a.ndim]
         out[f"array:{k}"] = V(dims, a, {"units": "µs"})
     lists = {"list-int": [1, 2, 3], "list-float": [0.1, float("nan"), -0.0], "list-str": ["horizontal", "vertical"], "list-bool": [True, False],
-             "list-2d": [[1 + 0, 2], [3, 4]], "list-big": [2**40, -2**40]}
+             "list-2d": [[1 + 0, 2], [3, 4]], "list-big": [2**40, -2**40],
+             # the type of a list is decided by ALL its entries: a narrower first entry / first row must not decide it
+             "list-int-then-float": [1, 1.25, 1.5, 2, 2.75, 3], "list-bool-then-int": [True, 2, 3], "list-2d-int-row-then-float-row": [[1, 2], [3.5, 4.25]],
+             "list-small-then-big": [1, 2**40], "list-int-then-nan": [1, float("nan")]}
     for k, l in lists.items():
         out[f"listdata:{k}"] = V(["x", "y"][: np.asarray(l).ndim], l, {})
     attrs = {
@@ -292,6 +295,9 @@ def body(chk):
                         "transport: the index file written by one process and read by a fresh one under UTF-8 and plain C (ASCII) locale encodings, both producers",
                         "the spec decides the structural cases (tagging, nesting, reference/offset arithmetic with NaT, shapes); digit exactness is decided by "
                         "the byte-level comparison on extreme representatives"]
+    from harness import sessioncheck
+
+    sessioncheck.standard(chk)
     chk.finish(rule="representatives = one or more extreme concrete values per (dtype kind, shape class, NaT class) + nested attribute shapes + backend "
                     "arrays + nested hierarchies, decoded in a fresh process; + every image group of products under rotating value plans; distinct = names",
                exhaustive=False, extra={"representatives": len(reps), "image_groups": ng})
